@@ -153,7 +153,7 @@ struct Explorer {
             // collect
             struct OkRec { uint32_t item, op; vu::H128 h; uint64_t tags; };
             std::vector<OkRec> oks;
-            bool aborted = false;
+            bool aborted = pr.gave_up;
             uint64_t level_trans = 0;
             for(auto &f : pr.files) {
                 pf::Reader rd; rd.load(f);
